@@ -82,22 +82,34 @@ fn build_doc(s: &Sch, id: u64, d: &Value) -> TantivyDocument {
     let mut doc = TantivyDocument::default();
     doc.add_u64(s.id, id);
     let f = |n: &str| s.schema.get_field(n).unwrap();
-    for (name, _) in TEXT_FIELDS {
-        for val in d.get(*name).and_then(|x| x.as_array()).unwrap_or(&vec![]) {
-            // a value = list of [key, relative position, position length]
-            let toks = val.as_array().unwrap();
-            let mut text = String::new();
-            let tokens: Vec<Token> = toks
-                .iter()
-                .map(|t| {
-                    let w = t[0].as_str().unwrap();
-                    let from = text.len();
-                    text.push_str(w);
-                    text.push(' ');
-                    Token { offset_from: from, offset_to: from + w.len(), position: t[1].as_u64().unwrap() as usize, text: w.to_string(), position_length: t[2].as_u64().unwrap() as usize }
-                })
-                .collect();
-            doc.add_pre_tokenized_text(f(name), PreTokenizedString { text, tokens });
+    // the (field, value) pairs of the text fields are added field by field, or - when the document gives an
+    // "order": [[field, index of the value], ...] - interleaved in that order
+    let mut add_text_value = |doc: &mut TantivyDocument, name: &str, val: &Value| {
+        // a value = list of [key, relative position, position length]
+        let toks = val.as_array().unwrap();
+        let mut text = String::new();
+        let tokens: Vec<Token> = toks
+            .iter()
+            .map(|t| {
+                let w = t[0].as_str().unwrap();
+                let from = text.len();
+                text.push_str(w);
+                text.push(' ');
+                Token { offset_from: from, offset_to: from + w.len(), position: t[1].as_u64().unwrap() as usize, text: w.to_string(), position_length: t[2].as_u64().unwrap() as usize }
+            })
+            .collect();
+        doc.add_pre_tokenized_text(f(name), PreTokenizedString { text, tokens });
+    };
+    if let Some(order) = d.get("order").and_then(|x| x.as_array()) {
+        for o in order {
+            let name = o[0].as_str().unwrap();
+            add_text_value(&mut doc, name, &d[name][o[1].as_u64().unwrap() as usize]);
+        }
+    } else {
+        for (name, _) in TEXT_FIELDS {
+            for val in d.get(*name).and_then(|x| x.as_array()).unwrap_or(&vec![]) {
+                add_text_value(&mut doc, name, val);
+            }
         }
     }
     let strs = |n: &str| -> Vec<String> { d.get(n).and_then(|x| x.as_array()).map(|a| a.iter().map(|x| x.as_str().unwrap().to_string()).collect()).unwrap_or_default() };
